@@ -115,7 +115,7 @@ def structure_lines(plen, st, exons, G, full=True):
         yield f"utr3 {tx}"
 
 
-def placement_lines(plen, st, exons, cds, full=True):
+def placement_lines(plen, st, exons, cds, full=True, rng=None):
     tx = enc_tx(plen, st, exons, cds)
     L = sum(e - s for s, e in exons)
     Ld = sum(e - s for s, e in cds)
@@ -128,8 +128,9 @@ def placement_lines(plen, st, exons, cds, full=True):
     yield f"c2t2d {tx} -1 {hi}"
     yield f"utr5 {tx}"
     yield f"utr3 {tx}"
-    yield f"rt_d {tx} -1 {Ld + 1}"
-    yield f"rt_td {tx} -1 {L + 1}"
+    if full or rng.random() < 0.25:
+        yield f"rt_d {tx} -1 {Ld + 1}"
+        yield f"rt_td {tx} -1 {L + 1}"
     if full:
         yield f"rt_dc {tx} -1 {Ld + 1}"
         yield f"cdsloc {tx}"
@@ -184,16 +185,17 @@ def cases(run):
     quick = run.tier == "quick"
     # (max exons, genome length, zero-length exons allowed, all placements?)
     if quick:
-        scopes = [(3, 8, False, True), (3, 10, False, False), (2, 5, True, True)]
+        scopes = [(3, 8, False, "all"), (3, 10, False, "exact"), (2, 5, True, "all")]
     else:
-        scopes = [(3, 10, False, True), (3, 12, False, False), (3, 6, True, True)]
+        scopes = [(3, 10, False, "all"), (3, 12, False, "near"), (3, 6, True, "all")]
+    how = {"all": "EVERY CDS placement [a,b) of the transcript",
+           "near": "every CDS placement whose two ends are each within 1 base of an exon boundary or a transcript end",
+           "exact": "every CDS placement whose two ends are each an exon boundary or a transcript end"}
     EXHAUSTIVE_NOTE = (
         "exon structures = ascending non-overlapping block lists (0-bp gaps allowed), both strands, whole-chromosome "
         "parent of length G+2; " + "; ".join(
             f"<= {k} exons on a genome of length {g}{' incl. zero-length exons' if z else ''} x "
-            + ("EVERY CDS placement [a,b) of the transcript" if allp else
-               "every CDS placement whose two ends are each within 1 base of an exon boundary or a transcript end")
-            + " + non-coding"
+            + how[allp] + " + non-coding"
             for k, g, z, allp in scopes)
         + "; per transcript every chromosome position in [-1, end+1], every transcript position in [-1, len+1], every "
           "CDS position in [-1, len+1]; every chromosome / transcript / CDS interval (and 4 malformed requests) x relative "
@@ -214,10 +216,11 @@ def cases(run):
                     continue
                 acc = list(itertools.accumulate(e - s for s, e in (exons if st == "+" else exons[::-1])))
                 near = {0, L} | set(acc)
-                near = {x + d for x in near for d in (-1, 0, 1) if 0 <= x + d <= L}
+                if all_placements == "near":
+                    near = {x + d for x in near for d in (-1, 0, 1) if 0 <= x + d <= L}
                 for a in range(0, L):
                     for b in range(a + 1, L + 1):
-                        if not all_placements and not (a in near and b in near):
+                        if all_placements != "all" and not (a in near and b in near):
                             continue
                         pk = (key, st, a, b)
                         if pk in seen_pl:
@@ -227,7 +230,7 @@ def cases(run):
                         for tag in placement_kind(exons, st, a, b, L):
                             run.count("exh-placement:" + tag)
                         run.count(f"exh-placement:cds-blocks={len(cds)}")
-                        yield from placement_lines(plen, st, exons, cds, full=not quick)
+                        yield from placement_lines(plen, st, exons, cds, full=not quick, rng=rng)
                 # intervals: sample of structures, one placement (or non-coding)
                 if first_time and rng.random() < (1 / 40):
                     run.count("exh-interval-structures")
